@@ -223,6 +223,51 @@ def sym_join(sep, it):
     return out
 
 
+_TABLES = {}
+
+
+def table_fn(d, label=None):
+    """the z3 function standing for a concrete int->int table (dict or list); one symbol per table object"""
+    k = id(d)
+    if k not in _TABLES:
+        _TABLES[k] = (z3.Function('tbl_%s' % (label or len(_TABLES)), z3.IntSort(), z3.IntSort()), d)
+    return _TABLES[k][0]
+
+
+def sym_getitem(a, b):
+    if not _b.isinstance(b, Sym) or _b.isinstance(a, Sym) or hasattr(a, '_sym_getitem'):
+        if hasattr(a, '_sym_getitem'):
+            return a._sym_getitem(b)
+        return a[b]
+    if _b.isinstance(b, SInt) and _b.isinstance(a, dict):
+        keys = _b.sorted(k for k in a if _b.isinstance(k, _b.int) and not _b.isinstance(k, _b.bool))
+        if not keys or not _b.all(_b.isinstance(a[k], _b.int) for k in keys):
+            raise OutOfSubset('symbolic key into a dict without an integer table')
+        c = ctx()
+        if keys == _b.list(_b.range(keys[0], keys[-1] + 1)):
+            present = z3.And(b.t >= keys[0], b.t <= keys[-1])
+        elif _b.len(keys) <= 64:
+            present = z3.Or(*[b.t == k for k in keys])
+        else:
+            raise OutOfSubset('symbolic key into a sparse dict')
+        if not c.decide(present):
+            raise KeyError(b)
+        c.assumptions.add('table lookups T[k] with symbolic k are an uninterpreted function per table object; facts about the table are ground obligations')
+        return SInt(table_fn(a)(b.t))
+    if _b.isinstance(b, SInt) and _b.isinstance(a, (_b.list, _b.tuple)):
+        c = ctx()
+        n = _b.len(a)
+        if not c.decide(z3.And(b.t >= -n, b.t < n)):
+            raise IndexError('index out of range')
+        if n <= 40:
+            i = 0
+            for i in _b.range(-n, n):
+                if c.decide(b.t == i):
+                    return a[i]
+        raise OutOfSubset('symbolic index into a long sequence')
+    raise OutOfSubset('symbolic subscript %s[%s]' % (type(a).__name__, type(b).__name__))
+
+
 def sym_not(x):
     if isinstance(x, Sym):
         return Not(x)
@@ -442,7 +487,7 @@ class _SymMath(object):
 
 SHADOWS = {
     '__sym_mod': sym_mod, '__sym_pow': sym_pow, '__sym_in': sym_in, '__sym_not': sym_not,
-    '__sym_is_none': sym_is_none, '__sym_join': sym_join, '__sym_fstr': sym_fstr, '__PathEnd': PathEnd,
+    '__sym_is_none': sym_is_none, '__sym_join': sym_join, '__sym_getitem': sym_getitem, '__sym_fstr': sym_fstr, '__PathEnd': PathEnd,
     'int': s_int, 'float': s_float, 'str': s_str, 'repr': s_repr, 'len': s_len, 'bool': s_bool,
     'isinstance': s_isinstance, 'max': s_max, 'min': s_min, 'divmod': s_divmod, 'round': s_round,
     'abs': s_abs, 'sum': s_sum, 'any': s_any, 'all': s_all,
